@@ -17,6 +17,10 @@ import Serif.Drive.C20
 import Serif.Drive.C17
 import Serif.Drive.C05
 import Serif.Drive.C06
+import Serif.Drive.C08
+import Serif.Drive.C09
+import Serif.Drive.C10
+import Serif.Drive.C11
 open Lean Serif.Wire
 
 def dispatch (p fam : String) (c impl : Json) : P Json :=
@@ -32,6 +36,10 @@ def dispatch (p fam : String) (c impl : Json) : P Json :=
   | "C17" => Serif.Drive.C17.handle fam c impl
   | "C05" => Serif.Drive.C05.handle fam c impl
   | "C06" => Serif.Drive.C06.handle fam c impl
+  | "C08" => Serif.Drive.C08.handle fam c impl
+  | "C09" => Serif.Drive.C09.handle fam c impl
+  | "C10" => Serif.Drive.C10.handle fam c impl
+  | "C11" => Serif.Drive.C11.handle fam c impl
   | _ => .error s!"unknown property {p}"
 
 def answer (line : String) : Json :=
